@@ -37,6 +37,10 @@ pub struct Plan {
     /// all FRI sizes (input size, layer heights, last-layer bound) declared larger by the blow-up
     /// exponent, so that the degree bound equals the evaluation-domain size
     pub fri_extra: bool,
+    /// the last-layer bound declared larger by the blow-up exponent (degree bound = evaluation-domain
+    /// size) and compensated by one surplus trailing FRI step of p - blow-up, so that a sum over the
+    /// WHOLE step vector still matches the trace size; every number the verifier folds with is genuine
+    pub trailing_step: bool,
     /// claimed openings are free values instead of the committed columns' values
     pub lie_openings: bool,
     /// oods_values carries two extra trailing entries (C(z), 0)
@@ -57,7 +61,7 @@ pub struct Plan {
 impl Plan {
     fn base(strategy: &'static str, expect: &'static str) -> Plan {
         Plan {
-            strategy, pow_bits: 20, n_queries: None, blowup_mod_p: None, fri_extra: false, lie_openings: false, decouple: false,
+            strategy, pow_bits: 20, n_queries: None, blowup_mod_p: None, fri_extra: false, trailing_step: false, lie_openings: false, decouple: false,
             last_layer_len_delta: 0, grind: true, falsify_output: false, unbound_answers: false, adaptive_siblings: false, expect_rejection: expect,
         }
     }
@@ -69,6 +73,7 @@ pub fn plans() -> Vec<Plan> {
         Plan { decouple: true, ..Plan::base("S2 oods-length-decoupling", "Oods") },
         Plan { decouple: true, falsify_output: true, ..Plan::base("S2 oods-length-decoupling (false output)", "Oods") },
         Plan { lie_openings: true, fri_extra: true, ..Plan::base("S3 fri-domain-larger-than-eval", "Validation") },
+        Plan { lie_openings: true, trailing_step: true, ..Plan::base("S11 degree-bound-via-trailing-step", "Validation") },
         Plan { lie_openings: true, blowup_mod_p: Some(2), n_queries: Some(16), ..Plan::base("S5 blowup-mod-p", "Validation") },
         Plan { lie_openings: true, adaptive_siblings: true, ..Plan::base("S4 fri-adaptive-siblings", "Fri") },
         Plan { lie_openings: true, n_queries: Some(0), ..Plan::base("S6 no-queries", "Validation") },
@@ -140,6 +145,8 @@ pub fn forge<L: LayoutTrait + GenericLayoutTrait>(h: &Honest, plan: &Plan, rng: 
     }
     let e = e_real as u32;
     let k: u32 = if plan.fri_extra { c_honest as u32 } else { 0 };
+    // extra last-layer bound without extra heights (S11)
+    let kb: u32 = if plan.trailing_step { c_honest as u32 } else { k };
     let hf = |x: i64| Felt::from(x as u64);
     {
         let cfg = &mut sp.config;
@@ -147,14 +154,17 @@ pub fn forge<L: LayoutTrait + GenericLayoutTrait>(h: &Honest, plan: &Plan, rng: 
             v.height = hf(e_real);
         }
         cfg.fri.log_input_size = hf(e_real + k as i64);
-        cfg.fri.log_last_layer_degree_bound = hf(lb_honest + k as i64);
+        cfg.fri.log_last_layer_degree_bound = hf(lb_honest + kb as i64);
+        if plan.trailing_step {
+            cfg.fri.fri_step_sizes.push(Felt::ZERO - Felt::from(c_honest as u64));
+        }
         let mut cur = e_real + k as i64;
         for (i, l) in cfg.fri.inner_layers.iter_mut().enumerate() {
             cur -= steps[i + 1] as i64;
             l.vector.height = hf(cur);
         }
     }
-    let lb_decl = (lb_honest + k as i64) as u32;
+    let lb_decl = (lb_honest + kb as i64) as u32;
     if plan.falsify_output {
         if let Some(c) = sp.public_input.main_page.0.last_mut() {
             c.value += Felt::ONE;
